@@ -883,9 +883,16 @@ fn op_bb(t: &[&str]) -> String {
     }
 }
 
+/// indices probed at the checked index constructors: 0..=70 and values whose LOW BITS look like a valid index (a check
+/// made after a narrowing cast accepts exactly these)
+pub const EXTRA_PROBES: [usize; 30] = [
+    127, 128, 191, 192, 255, 256, 257, 300, 319, 320, 321, 511, 512, 575, 576, 1023, 1024, 4095, 4096, 65535, 65536, 65599,
+    65600, 16777216, 4294967295, 4294967296, 4294967297, 4294967359, 9223372036854775808, 18446744073709551615,
+];
+
 fn succ_string(f: impl Fn(usize)) -> String {
-    let mut s = String::with_capacity(71);
-    for n in 0..=70usize {
+    let mut s = String::with_capacity(101);
+    for n in (0..=70usize).chain(EXTRA_PROBES.iter().copied()) {
         let ok = catch_unwind(AssertUnwindSafe(|| f(n))).is_ok();
         s.push(if ok { '1' } else { '0' });
     }
